@@ -375,6 +375,57 @@ func (t *FnTrans) nilCheck(pos token.Pos, reach, ref string) {
 	t.safety("nil", pos, reach, not(eq(ref, "0")))
 }
 
+// nilCheckOf is nilCheck for a dereference of the SSA value v.  In a function
+// that is not `safe`, dereferences are normally assumed not to panic; but when
+// v is directly the pointer result of a call whose contract says when that
+// result is nil, the contract decides the dereference, and assuming it away
+// would make the path on which the callee returned nil silently infeasible
+// (everything after it vacuous).  Such a dereference is an obligation.
+func (t *FnTrans) nilCheckOf(v ssa.Value, pos token.Pos, reach, ref string) {
+	if t.con != nil && !t.con.Safe && ref != "0" && t.calleeContractSpeaksOfNil(v) {
+		t.addObl("nil-callee-result", t.srcText(pos), reach, Formula{Raw: not(eq(ref, "0"))}, pos, "dereference of a call result that the callee's contract allows to be nil")
+	}
+	t.nilCheck(pos, reach, ref)
+}
+
+func (t *FnTrans) calleeContractSpeaksOfNil(v ssa.Value) bool {
+	idx := 0
+	var call *ssa.Call
+	switch x := v.(type) {
+	case *ssa.Extract:
+		c, ok := x.Tuple.(*ssa.Call)
+		if !ok {
+			return false
+		}
+		call, idx = c, x.Index
+	case *ssa.Call:
+		call = x
+	default:
+		return false
+	}
+	callee := call.Call.StaticCallee()
+	if callee == nil {
+		return false
+	}
+	con := t.W.contractFor(callee)
+	if con == nil {
+		return false
+	}
+	names := []string{fmt.Sprintf("result%d", idx)}
+	if idx == 0 {
+		names = append(names, "result")
+	}
+	for _, c := range con.Ensures {
+		txt := normText(c.Text)
+		for _, n := range names {
+			if strings.Contains(txt, n+"==nil") || strings.Contains(txt, n+"!=nil") {
+				return true
+			}
+		}
+	}
+	return false
+}
+
 // locOf resolves a pointer value to a location of the pointee type.
 func (t *FnTrans) locOf(p Val, ptrT types.Type) (*Loc, bool) {
 	switch p.K {
@@ -406,7 +457,7 @@ func (t *FnTrans) unopInstr(x *ssa.UnOp, st *HeapState, reach string) {
 			return
 		}
 		if p.K == VScalar && !interiorOrLocal(x.X) {
-			t.nilCheck(x.Pos(), reach, p.S)
+			t.nilCheckOf(x.X, x.Pos(), reach, p.S)
 		}
 		lv := t.load(st, l, reach)
 		if g, ok := x.X.(*ssa.Global); ok && lv.K == VScalar && t.W.nonNilErrorGlobal(g) {
@@ -470,7 +521,7 @@ func (t *FnTrans) storeInstr(x *ssa.Store, st *HeapState, reach string) {
 		return
 	}
 	if p.K == VScalar && !interiorOrLocal(x.Addr) {
-		t.nilCheck(x.Pos(), reach, p.S)
+		t.nilCheckOf(x.Addr, x.Pos(), reach, p.S)
 	}
 	t.store(st, l, t.val(x.Val))
 }
@@ -482,7 +533,7 @@ func (t *FnTrans) fieldAddr(x *ssa.FieldAddr, reach string) {
 		return
 	}
 	if !interiorOrLocal(x.X) {
-		t.nilCheck(x.Pos(), reach, p.S)
+		t.nilCheckOf(x.X, x.Pos(), reach, p.S)
 	}
 	st := x.X.Type().Underlying().(*types.Pointer).Elem()
 	l := t.fieldLoc(st, x.Field, p.S)
